@@ -128,7 +128,11 @@ def real_phase_input(paths, only_snvs, queries):
     out = []
     for chrom, variants, sample in queries:
         sid = ids[sample]
-        readset, src = pir.read(chrom, variants, sample)
+        try:
+            readset, src = pir.read(chrom, variants, sample)
+        except Exception as e:  # noqa: BLE001 - a crash of the real code on legal arguments is a finding, not a harness error
+            out.append({"crash": type(e).__name__ + ": " + str(e)[:200], "sample_id": sid})
+            continue
         firsts = [r[0].position for r in readset if len(r)]
         reads = sorted((r.name, r.source_id, r.sample_id, [[v.position, v.allele, v.quality] for v in r]) for r in readset)
         out.append({"reads": [list(x) for x in reads], "source_ids": sorted(src), "sample_id": sid,
@@ -164,6 +168,9 @@ def real_write(in_path, out_path, tag, only_snvs, rm, plan):
                 w.write(chrom, srs, comps)
             except KeyError as e:
                 err = "KeyError:" + str(e)
+                break
+            except Exception as e:  # noqa: BLE001
+                err = "crash:" + type(e).__name__ + ": " + str(e)[:200]
                 break
     finally:
         w.close()
